@@ -275,6 +275,10 @@ impl<'tokens> Parser<'tokens> {
     pub(crate) fn bump(&mut self) {
         #[cfg(capy_verif)]
         crate::verif::tick();
+        // the sink attaches trivia by itself, so a bump must always consume a real token
+        // (callers that bump twice in a row, e.g. for `.(`, would otherwise consume whitespace
+        // and later hand the sink more tokens than exist)
+        self.skip_trivia();
         self.clear_expected_syntaxes();
         self.events.push(Some(Event::AddToken));
         self.token_idx += 1;
